@@ -25,6 +25,12 @@ struct Flight {
 	s2: Option<Slate>,
 	fin: Option<Slate>,
 	posted: bool,
+	/// invoice flights: the wallet whose process_invoice_tx produced [s2] (may be the issuer itself)
+	payer: Option<usize>,
+	/// the spending wallet reserved its inputs (tx_lock_outputs succeeded, or late lock at finalize)
+	locked: bool,
+	/// late-locked send (inputs are selected and reserved inside finalize)
+	late: bool,
 }
 
 struct Hist {
@@ -35,6 +41,8 @@ struct Hist {
 	steps: [Vec<Value>; 2],
 	profile: String,
 	mined: Vec<(u64, Transaction)>,
+	/// per wallet: a transaction spending its outputs was broadcast although the wallet never reserved them
+	unreserved_spend: [bool; 2],
 }
 
 fn acct_name(a: u64) -> Option<&'static str> {
@@ -316,6 +324,9 @@ impl Hist {
 				s2: None,
 				fin: None,
 				posted: false,
+				payer: None,
+				locked: false,
+				late,
 			});
 		}
 		let aif = args.amount_includes_fee.unwrap_or(false);
@@ -374,6 +385,9 @@ impl Hist {
 				s2: None,
 				fin: None,
 				posted: false,
+				payer: None,
+				locked: false,
+				late: false,
 			});
 		}
 		self.record(
@@ -388,7 +402,7 @@ impl Hist {
 			let fl = &self.flights[f];
 			(fl.sender, fl.s1.clone(), fl.num)
 		};
-		let payer = if self.p.chance(1, 10) { issuer } else { 1 - issuer };
+		let payer = if self.p.chance(1, 6) { issuer } else { 1 - issuer };
 		let tip = self.s.node.height();
 		let active = self.active(payer);
 		let src: Option<u64> = if self.p.chance(1, 3) { Some(self.p.below(2)) } else { None };
@@ -413,6 +427,7 @@ impl Hist {
 		let rc = rc_of(&r);
 		if let Ok(Ok(s2)) = &r {
 			self.flights[f].s2 = Some(s2.clone());
+			self.flights[f].payer = Some(payer);
 		}
 		self.record(
 			payer,
@@ -473,7 +488,7 @@ impl Hist {
 			let fl = &self.flights[f];
 			(fl.sender, fl.s1.clone(), fl.num)
 		};
-		let r_i = if self.p.chance(1, 12) { sender } else { 1 - sender };
+		let r_i = if self.p.chance(1, 8) { sender } else { 1 - sender };
 		let dest: Option<u64> = if self.p.chance(1, 4) {
 			Some(self.p.below(2))
 		} else {
@@ -495,7 +510,8 @@ impl Hist {
 		let rc = rc_of(&r);
 		let crypto_ok = !(rc.len() == 2 && rc[1] == 17);
 		if let Ok(Ok(s2)) = &r {
-			if r_i != sender && !tampered {
+			// (a self-send, delivered to the sending wallet itself, is a complete exchange too)
+			if !tampered {
 				self.flights[f].s2 = Some(s2.clone());
 			}
 		}
@@ -515,8 +531,9 @@ impl Hist {
 		let (sender, sl, num) = {
 			let fl = &self.flights[f];
 			(
-				// in an invoice flight the payer (the other wallet) reserves
-				if fl.invoice { 1 - fl.sender } else { fl.sender },
+				// in an invoice flight the payer reserves (normally the other wallet; the issuer
+				// itself when it paid its own invoice)
+				if fl.invoice { fl.payer.unwrap_or(1 - fl.sender) } else { fl.sender },
 				fl.s2.clone().unwrap_or_else(|| fl.s1.clone()),
 				fl.num,
 			)
@@ -539,6 +556,9 @@ impl Hist {
 		});
 		let r = guarded(|| self.s.with(who, |b, m| owner::tx_lock_outputs(b, m, &sl)));
 		let rc = rc_of(&r);
+		if rc == vec![0] && who == sender {
+			self.flights[f].locked = true;
+		}
 		self.record(
 			who,
 			json!({"k": "lock", "slate": num, "ttl": sl.ttl_cutoff_height, "tip": tip, "has_tx": sl.tx.is_some()}),
@@ -637,6 +657,14 @@ impl Hist {
 				let c = self.s.node.client();
 				let _ = owner::post_tx(&c, fin.tx_or_err().unwrap(), false);
 				self.flights[f].posted = true;
+				// who spends: the payer of an invoice, the sender otherwise; a late-locked send
+				// reserves inside finalize
+				let fl = &self.flights[f];
+				let spender = if fl.invoice { fl.payer.unwrap_or(1 - fl.sender) } else { fl.sender };
+				let late = fl.late;
+				if !fl.locked && !late {
+					self.unreserved_spend[spender] = true;
+				}
 			}
 		}
 	}
@@ -713,7 +741,8 @@ impl Hist {
 		let f = self.flights.len() - 1;
 		let s1 = self.flights[f].s1.clone();
 		let num = self.flights[f].num;
-		let r_i = 1 - sender;
+		// one payment in four is a self-send: delivered to (another account of) the sending wallet
+		let r_i = if self.p.chance(1, 4) { sender } else { 1 - sender };
 		let dest_name = dest.and_then(acct_name);
 		let r = guarded(|| self.s.with(r_i, |b, m| foreign::receive_tx(b, m, &s1, dest_name, false)));
 		let rc = rc_of(&r);
@@ -747,6 +776,37 @@ impl Hist {
 		self.refresh(r_i, all);
 		let all2 = self.p.coin();
 		self.refresh(sender, all2);
+	}
+
+	/// Directed invoice: issued, paid (one time in six by the issuing wallet itself), reserved,
+	/// finalized by the issuer, posted, mined and looked at by both sides.
+	fn invoice_episode(&mut self) {
+		let issuer = self.p.below(2) as usize;
+		let before = self.flights.len();
+		self.issue_invoice(issuer);
+		if self.flights.len() == before {
+			return;
+		}
+		let f = self.flights.len() - 1;
+		self.process_invoice(f);
+		let payer = match self.flights[f].payer {
+			Some(p) => p,
+			None => return,
+		};
+		self.lock(f);
+		self.finalize_invoice(f);
+		if self.flights[f].fin.is_none() {
+			return;
+		}
+		self.post(f);
+		let miner = self.p.below(2) as usize;
+		self.mine(miner, true);
+		let all = self.p.coin();
+		self.refresh(issuer, all);
+		if payer != issuer {
+			let all2 = self.p.coin();
+			self.refresh(payer, all2);
+		}
 	}
 
 	/// Directed reorg episode built from the primitive operations: complete a payment, confirm
@@ -890,7 +950,13 @@ impl Hist {
 			Ok(Err(e)) => vec![1, err_class(e)],
 			Ok(Ok(_)) => vec![0],
 		};
-		self.record(i, json!({"k": "update_state", "tip": tip}), rc, json!({"nomodel": true}));
+		let unreserved = self.unreserved_spend[i];
+		self.record(
+			i,
+			json!({"k": "update_state", "tip": tip}),
+			rc,
+			json!({"nomodel": true, "unreserved_spend": unreserved}),
+		);
 	}
 
 	fn step(&mut self) {
@@ -954,7 +1020,11 @@ impl Hist {
 		} else if in_band(w_episode) {
 			self.reorg_episode();
 		} else if in_band(w_pay) {
-			self.pay_episode();
+			if self.p.chance(1, 4) {
+				self.invoice_episode();
+			} else {
+				self.pay_episode();
+			}
 		} else if self.p.chance(1, 2) {
 			// closing and opening the wallet forgets the active account (it is not persisted):
 			// for the model a reopen is a switch to the default account
@@ -994,6 +1064,7 @@ fn main() {
 			steps: [vec![], vec![]],
 			profile: profile.clone(),
 			mined: vec![],
+			unreserved_spend: [false, false],
 		};
 		// a funded start (modelled as coinbase ops): the same number of blocks to each wallet, in
 		// half of the histories also to the second account of each wallet (so that per-account
